@@ -250,7 +250,12 @@ def install_recorders() -> None:
     Linter.lint_string_wrapped = lint_string_wrapped
     Linter._lex_templated_file = staticmethod(_lex_templated_file)
     Linter.lint_fix_parsed = classmethod(lint_fix_parsed)
-    logging.getLogger("sqlfluff.linter").addFilter(_LimitFilter())
+    # vf.sq silences the sqlfluff loggers by raising their level above CRITICAL; the loop-limit observation needs
+    # the linter logger's WARNING records to reach the filter (the logger keeps sq's NullHandler and propagate=False,
+    # so nothing is printed)
+    lg = logging.getLogger("sqlfluff.linter")
+    lg.setLevel(logging.WARNING)
+    lg.addFilter(_LimitFilter())
     _cleanup_logging()
     REC["installed"] = True
 
@@ -309,6 +314,7 @@ def _cleanup_logging() -> None:
     for hd in list(lg.handlers):
         lg.removeHandler(hd)
     lg.addHandler(_NULL)
+    logging.getLogger("sqlfluff.linter").setLevel(logging.WARNING)
 
 
 # ------------------------------------------------------------------------------------------ entry points
